@@ -9,8 +9,8 @@ From SV Require Import Model.GroupKey Model.Counting Spec.GroupSpec Proofs.Group
 
 (* the i-th batch (i = 0, 1, ..) delivered for the key tuple t is exactly rows i*N+1 .. (i+1)*N of
    t's subsequence, in order, and there is an i-th batch only if t has (i+1)*N rows *)
-Theorem C09_ith_batch : forall n c h t i, 1 <= n ->
-  Forall (fun r => length (kvals r) = c) h -> length t = c ->
+Theorem C09_ith_batch : forall n sch h t i, 1 <= n ->
+  Forall (fun r => conforms sch (ktuple_of r)) h -> conforms sch t ->
   nth_error (kbatches_of (tuple_key s_global t) (cw_run n h)) i =
     if S i * n <=? length (krows_of t h)
     then Some (firstn n (skipn (i * n) (krows_of t h))) else None.
@@ -18,8 +18,8 @@ Proof. exact counting_ith_batch. Qed.
 Print Assumptions C09_ith_batch.
 
 (* fewer than N trailing rows never produce a result: |rows_t| / N batches, each of N rows *)
-Theorem C09_no_partial : forall n c h t, 1 <= n ->
-  Forall (fun r => length (kvals r) = c) h -> length t = c ->
+Theorem C09_no_partial : forall n sch h t, 1 <= n ->
+  Forall (fun r => conforms sch (ktuple_of r)) h -> conforms sch t ->
   length (kbatches_of (tuple_key s_global t) (cw_run n h)) = length (krows_of t h) / n
   /\ Forall (fun b => length b = n) (kbatches_of (tuple_key s_global t) (cw_run n h)).
 Proof. exact counting_no_partial. Qed.
@@ -32,19 +32,20 @@ Theorem C09_key_isolation : forall n h k,
 Proof. exact counting_key_isolation. Qed.
 Print Assumptions C09_key_isolation.
 
-(* a batch holds rows of one key only; by C04 (injective key) that is: of one tuple only *)
+(* a batch holds rows of one key only; by C04 (injective key, rows of one schema) that is: of one
+   tuple only *)
 Theorem C09_batch_one_key : forall n h k rs r,
   In (k, rs) (cw_run n h) -> In r rs -> k = cnt_key r.
 Proof. exact counting_batch_one_tuple. Qed.
 Print Assumptions C09_batch_one_key.
 
-Theorem C09_batch_one_tuple : forall n c h k rs r1 r2,
-  Forall (fun r => length (kvals r) = c) h ->
+Theorem C09_batch_one_tuple : forall n sch h k rs r1 r2,
+  Forall (fun r => conforms sch (ktuple_of r)) h ->
   In (k, rs) (cw_run n h) -> In r1 rs -> In r2 rs -> In r1 h -> In r2 h -> ktuple_of r1 = ktuple_of r2.
 Proof.
-  intros n c h k rs r1 r2 HC Hin H1 H2 I1 I2.
+  intros n sch h k rs r1 r2 HC Hin H1 H2 I1 I2.
   rewrite Forall_forall in HC.
-  apply (proj1 (win_key_iff s_global r1 r2 (eq_trans (HC _ I1) (eq_sym (HC _ I2))))).
+  apply (proj1 (win_key_iff s_global sch r1 r2 (HC _ I1) (HC _ I2))).
   change (cnt_key r1 = cnt_key r2).
   rewrite <- (counting_batch_one_tuple n h k rs r1 Hin H1).
   exact (counting_batch_one_tuple n h k rs r2 Hin H2).
@@ -65,8 +66,8 @@ Print Assumptions C09_conservation.
 
 (* the declarative N-blocks the extracted checker chk_C09 demands of the implementation (clause
    ith_batch, Spec/GroupSpec.v [chunks]) are exactly what the model delivers for every key *)
-Theorem C09_model_meets_checker_blocks : forall n c h t, 1 <= n ->
-  Forall (fun r => length (kvals r) = c) h -> length t = c ->
+Theorem C09_model_meets_checker_blocks : forall n sch h t, 1 <= n ->
+  Forall (fun r => conforms sch (ktuple_of r)) h -> conforms sch t ->
   map (map krid) (kbatches_of (tuple_key s_global t) (cw_run n h))
   = let ids := map krid (krows_of t h) in chunks (length ids) n ids.
 Proof. exact counting_matches_spec_blocks. Qed.
